@@ -231,7 +231,31 @@ def gen_term(rng, fl, kind, max_deg):
     return t
 
 
+def degree(e):
+    p = expand_poly(e)
+    return max((len(m) for m in p), default=0) if p is not None else 0
+
+
 def gen_poly(rng, fl, kind, max_deg=3, nterms=None, rational=False):
+    """total degree <= 3 (the property's quantifier); the numerator of a rational expression likewise"""
+    for _ in range(20):
+        e = _gen_poly(rng, fl, kind, max_deg, nterms, False)
+        if degree(e) <= 3:
+            break
+    else:
+        e = gen_term(rng, fl, kind, 1)
+    if rational:
+        r = rng.random()
+        if r < 0.4:
+            e = ["/", e, rng.choice(["2", "4", "3", "0.5"])]
+        elif r < 0.8:
+            e = ["/", e, rng.choice(fl)]
+        else:
+            e = ["+", e, ["/", "1", ["*", rng.choice(fl), rng.choice(fl)]]]
+    return e
+
+
+def _gen_poly(rng, fl, kind, max_deg=3, nterms=None, rational=False):
     n = nterms or rng.randint(1, 4)
     e = gen_term(rng, fl, kind, max_deg)
     for _ in range(n - 1):
@@ -364,7 +388,7 @@ def judge_condition(ctx, rng, op, lhs, rhs, out_text, digits, exact, wit, fl, ap
             except ZeroDivisionError:
                 continue
             want = truth(op, d)
-            got = out_truth(cond, v, h, h * cmax * monomial_mass(poly, fl, v))
+            got = out_truth(cond, v, h, h * monomial_mass(poly, fl, v))
             if got is None:
                 if count:
                     ctx.count("rounding_undecided")
@@ -562,7 +586,7 @@ def case_expression(ctx, rng, fl, kind, rational, digits, simplify_expr):
         if got is None:
             ctx.count("rounding_undecided")
             continue
-        slack = h * cmax * monomial_mass(poly, ufl, v)
+        slack = h * monomial_mass(poly, ufl, v)
         got = (got[0] - slack, got[1] + slack)
         ctx.count("compared:meaning")
         ok = True
@@ -579,7 +603,7 @@ def case_expression(ctx, rng, fl, kind, rational, digits, simplify_expr):
                     except ZeroDivisionError:
                         continue
                     gi = iv(tree, vm, h)
-                    sl = h * cmax * monomial_mass(poly, ufl, vm)
+                    sl = h * monomial_mass(poly, ufl, vm)
                     if gi is not None and not (gi[0] - sl <= wv <= gi[1] + sl):
                         clean = False
                 if clean:
@@ -662,10 +686,10 @@ def case_precondition(ctx, rng, fl, kind, digits, feats):
 
     def out_conj(v, on_manifold):
         # after substitution an output condition may combine several originals: use the total monomial mass
-        slack = h * cmax * sum(monomial_mass(p_, LIFTED, v) for p_ in allp) * (1 + len(eqs))
+        slack = h * sum(monomial_mass(p_, LIFTED, v) for p_ in allp) * (1 + len(eqs))
         if eqs:
             # substitution creates monomials the originals do not have: fall back to the generic mass bound
-            slack = max(slack, h * cmax * cmax * (1 + sum(abs(v[f]) for f in fl)) ** 3)
+            slack = max(slack, h * (1 + sum(abs(v[f]) for f in fl)) ** 3)
         res = [out_truth(c, v, h, slack) for c in got_conds]
         if any(r is False for r in res):
             return False
